@@ -174,7 +174,7 @@ def stopSubject (d : DSt) (fn : Option Outcome) : DSt × (CtrlRet × List Report
   let s2 := (List.range n).foldl (fun s i => finishItem s i) s1
   let s3 := (List.range n).foldl (fun s i => runHeld 16 s i) s2
   let s4 := runHeld 16 (finishItem s3 n) n
-  let cret := (s4.items[n]?.bind (·.cret)).getD .nil
+  let cret := (s4.items[n]?.bind (fun it => if it.sent then it.cret else none)).getD .nil
   -- the stop item is not a scenario item: remove it again
   let s5 := { s4 with items := s4.items.take n, stopFlag := false, ctxDone := false, feed := s4.feed.take before }
   ({ d with st := s5, ids := d.ids.map fun (id, _, os) => (id, false, os) }, (cret, s4.feed.drop before))
